@@ -301,6 +301,10 @@ def mon_values(spec, w) -> list[Fail]:
             else np.linspace(0, 1, len(vals))
         rng_ = float(np.max(np.abs(vals))) if len(vals) else 1.0
         tol = ROUND_ABS * max(1.0, rng_)
+        # the samples are rounded to 9 decimals whatever the scale of the values: values far below 1 are
+        # judged relative to their own range and keyed apart (`small_values`)
+        small = 0 < rng_ < 1e-3
+        vtol = 1e-6 * rng_ if small else tol
         pts = w.data_points
         if len({int(t) for t, _ in pts}) < len(pts):
             # two data points fall on the same nanosecond: "the documented value at the documented
@@ -313,8 +317,9 @@ def mon_values(spec, w) -> list[Fail]:
             if int(t) != int(round(tt * (d - 1))) or v != vv:
                 out.append(Fail("interp-points", f"data point ({t},{v}) for time fraction {tt}, value {vv}"))
                 break
-            if 0 <= int(t) < d and abs(s[int(t)] - vv) > tol:
-                out.append(Fail("interp-values", f"sample {int(t)} = {s[int(t)]} but data point value {vv}"))
+            if 0 <= int(t) < d and abs(s[int(t)] - vv) > vtol:
+                out.append(Fail("interp-values", f"sample {int(t)} = {s[int(t)]} but data point value {vv}",
+                                dict(small_values=bool(small))))
                 break
         spans = times.min() == 0 and times.max() == 1
         if spans and (np.min(s) < vals.min() - tol or np.max(s) > vals.max() + tol):
@@ -337,8 +342,8 @@ def mon_chdur(w, new, spec=None) -> list[Fail]:
             return [Fail("change-duration", f"{cls}.change_duration raises NotImplementedError")]
         return []
     except ValueError as e:
-        if cls == "InterpolatedWaveform" and "strictly increasing" in str(e):
-            return []    # data points collide on the shorter grid: clean rejection by scipy
+        if cls == "InterpolatedWaveform" and spec is not None and new > 0 and interp_collides(dict(spec, d=new)):
+            return []    # the data points collide on the shorter grid: a legitimate refusal
         return [Fail("change-duration", f"{cls}.change_duration({new}) raises {e}")]
     out = []
     if cls not in PARAM_ATTRS:
@@ -565,6 +570,29 @@ def arb_via_sampler(p, phi, tol) -> list[Fail]:
     return []
 
 
+def interp_collides(spec) -> bool:
+    """Two interpolation points on the same ns, from the constructor arguments alone."""
+    vals = spec["values"]
+    times = spec["times"] if spec.get("times") is not None else list(np.linspace(0, 1, len(vals)))
+    pts = [int(round(float(t) * (spec["d"] - 1))) for t in times]
+    return len(set(pts)) < len(pts)
+
+
+def interp_rejection(spec, e) -> list[Fail]:
+    """A refused InterpolatedWaveform is legitimate exactly when its arguments are: positive duration,
+    as many times as values, sorted distinct time fractions in [0, 1] and no two points on one ns."""
+    if spec["c"] != "interp" or not isinstance(spec.get("d"), int) or spec["d"] <= 0:
+        return []
+    times = spec.get("times")
+    if times is not None and (len(times) != len(spec["values"]) or sorted(set(times)) != list(times)
+                              or min(times) < 0 or max(times) > 1):
+        return []
+    if len(spec["values"]) < 2 or interp_collides(spec):
+        return []
+    return [Fail("interp-spurious-reject", f"InterpolatedWaveform({spec['d']}, {len(spec['values'])} well separated "
+                                           f"points) is refused: {e}", dict(interpolator=spec.get("interpolator")))]
+
+
 def mon_wf(case) -> tuple[list[Fail], object]:
     """All waveform clauses for one (spec, op) case.  Returns (fails, outcome) where outcome is
     ('invalid', exc name) or ('ok', object)."""
@@ -574,7 +602,7 @@ def mon_wf(case) -> tuple[list[Fail], object]:
         try:
             w = build(spec)
         except (ValueError, TypeError) as e:
-            return [], ("invalid", type(e).__name__)
+            return interp_rejection(spec, e), ("invalid", type(e).__name__)
         fails = mon_finite(w)
         if fails:
             return fails, ("ok", w)
@@ -1023,6 +1051,18 @@ def gen_cases(rng, tier):
         for interp in ("PchipInterpolator", "interp1d"):
             yield dict(k="wf", op="samples", wf=dict(c="interp", d=d, values=[1.0, 2.0, 0.5], times=[0.2, 0.5, 0.8],
                                                      interpolator=interp))
+    # --- durations too short for the interpolation points (both interpolators), and the shortest that fits
+    for interp in ("PchipInterpolator", "interp1d"):
+        for d, values in ((1, [1.0, 2.0]), (2, [1.0, 2.0, 3.0]), (3, [1.0, 2.0, 3.0]), (2, [1.0, 2.0]),
+                          (4, [0.5, -1.0, 2.0, 3.0, 1.0]), (5, [0.5, -1.0, 2.0, 3.0, 1.0])):
+            yield dict(k="wf", op="samples", wf=dict(c="interp", d=d, values=values, times=None, interpolator=interp))
+            yield dict(k="wf", op="chdur", new=d, wf=dict(c="interp", d=20, values=values, times=None,
+                                                          interpolator=interp))
+    # --- values far below the 9 decimals the samples are rounded to
+    for scale in (1e-12, 1e-10, 1e-7, 1e-4):
+        for d in (10, 40):
+            yield dict(k="wf", op="samples", wf=dict(c="interp", d=d, values=[1 * scale, 2 * scale, -0.5 * scale],
+                                                     times=None, interpolator="PchipInterpolator"))
     # --- from_max_val
     n_f = 250 if not thorough else 2500
     for cls in ("blackman", "kaiser"):
